@@ -14,9 +14,11 @@ here: they are the generated `Gen.ServerMethods` tables, so the model dispatches
 says now.
 
 Abstractions (stated in notes/C14.md): SHA3-256 digest equality is key equality (collision freedom);
-the object store never fails (no persistence-failure rollback branches); handler bodies of the
-database scope are not modelled (the model stops at "handler H of database n was reached with /
-without the principal"); timing is not modelled.
+the object store fails in one way only — the primary database was switched read-only, so the
+registry / key map cannot be persisted and the management operations take their rollback branches
+(`State.primaryRO`); handler bodies of the database scope are not modelled (the model stops at
+"handler H of database n was reached with / without the principal"), except `scoped_info` and
+`db.set_read_only` on the primary; timing, shutdown, timeouts and concurrency are not modelled.
 -/
 import AndaVerif.Gen.ServerMethods
 
@@ -66,6 +68,7 @@ inductive ApiError where
   | dbExists (name : String)          -- 409 already_exists
   | limitExceeded                     -- 409 limit_exceeded
   | dbNotFound (name : String)        -- 404 not_found "database \"n\" not found"
+  | internal                          -- 500 internal "internal server error" (an engine error, sanitised)
   | unknownHandler (h : String)       -- the generated table names a handler the model has no semantics for
 deriving DecidableEq, Repr
 
@@ -75,6 +78,7 @@ def ApiError.status : ApiError → Nat
   | .badBody | .methodNotFound _ | .invalidParams | .invalidName | .emptyKey | .primaryCannotClose => 400
   | .needsAdminKey | .primaryNotDelegable | .dbExists _ | .limitExceeded => 409
   | .dbNotFound _ => 404
+  | .internal => 500
   | .unknownHandler _ => 599
 
 /-- `ApiKeyHash::verify`: hash the presented key and compare digests; modelled as key equality. -/
@@ -118,6 +122,11 @@ structure State where
   opened : List String             -- keys of `databases`
   registry : List String           -- `registry` (non-primary names to reopen)
   stored : List String             -- databases whose metadata object exists in the store
+  /-- the primary database was switched read-only (`db.set_read_only` on `POST /{primary}`): every
+  attempt to persist the registry or the key map (`save_extension_from`) then fails, and the
+  management operations take their rollback branches and answer 500. Not persisted: a restart
+  clears it. -/
+  primaryRO : Bool
 deriving DecidableEq, Repr
 
 def lookup : List (String × String) → String → Option String
@@ -138,7 +147,7 @@ def delName (xs : List String) (n : String) : List String :=
 
 /-- State after `AppState::connect` on an empty store. -/
 def init (cfg : Cfg) : State :=
-  { bound := [], opened := [cfg.primary], registry := [], stored := [cfg.primary] }
+  { bound := [], opened := [cfg.primary], registry := [], stored := [cfg.primary], primaryRO := false }
 
 /-- `AppState::authorize`: the binding is looked up by the scope's name only. -/
 def authorizeState (cfg : Cfg) (s : State) (scope : Scope) (presented : Option String) :
@@ -155,6 +164,8 @@ def authorizeState (cfg : Cfg) (s : State) (scope : Scope) (presented : Option S
 structure RootParams where
   name : Option String
   apiKey : Option String
+  /-- `read_only` of `SetReadOnlyParams` (database scope), when the parameters carry one -/
+  readOnly : Option Bool := none
 deriving DecidableEq, Repr
 
 inductive RootResult where
@@ -177,7 +188,9 @@ inductive OpenMode where
   | create | open | connect
 deriving DecidableEq, Repr
 
-/-- `register_db` (no storage failures, no shutdown race). -/
+/-- `register_db` (no shutdown race; the only storage failure modelled is the read-only primary:
+the engine has then already created/opened the database when binding the key or persisting the
+registry fails, everything in memory is unwound, and a created database stays in the store). -/
 def registerDb (cfg : Cfg) (s : State) (mode : OpenMode) (name : String) (apiKey : Option String) :
     State × Except ApiError RootResult :=
   if !validName name then (s, .error .invalidName) else
@@ -198,16 +211,21 @@ def registerDb (cfg : Cfg) (s : State) (mode : OpenMode) (name : String) (apiKey
       | .create, true => (s, .error (.dbExists name))
       | .open, false => (s, .error (.dbNotFound name))
       | _, _ =>
-        let bound := match apiKey with
-          | some k => setKey s.bound name k
-          | none => s.bound
-        ({ bound := bound, opened := addName s.opened name, registry := addName s.registry name,
-           stored := addName s.stored name }, .ok (.metadata name))
+        if s.primaryRO then
+          ({ s with stored := addName s.stored name }, .error .internal)
+        else
+          let bound := match apiKey with
+            | some k => setKey s.bound name k
+            | none => s.bound
+          ({ s with bound := bound, opened := addName s.opened name, registry := addName s.registry name,
+                    stored := addName s.stored name }, .ok (.metadata name))
 
-/-- `close_db`: the binding is kept on purpose. -/
+/-- `close_db`: the binding is kept on purpose. When the registry cannot be persisted the database
+is closed all the same, stays registered, and the caller gets the persistence error. -/
 def closeDb (cfg : Cfg) (s : State) (name : String) : State × Except ApiError RootResult :=
   if name == cfg.primary then (s, .error .primaryCannotClose)
   else if !s.opened.contains name && !s.registry.contains name then (s, .error (.dbNotFound name))
+  else if s.primaryRO then ({ s with opened := delName s.opened name }, .error .internal)
   else ({ s with opened := delName s.opened name, registry := delName s.registry name }, .ok .unit)
 
 /-- `require_known_db`. -/
@@ -223,6 +241,7 @@ def setDbApiKey (cfg : Cfg) (s : State) (name : String) (key : Option String) (f
   | .error e => (s, .error e)
   | .ok () =>
     if !knownDb s name then (s, .error (.dbNotFound name))
+    else if s.primaryRO then (s, .error .internal)   -- `store_api_key` restores the previous value
     else ({ s with bound := setKey s.bound name k }, .ok (.keySet name key.isNone))
 
 /-- `remove_db_api_key`. -/
@@ -230,7 +249,9 @@ def removeDbApiKey (s : State) (name : String) : State × Except ApiError RootRe
   if !knownDb s name then (s, .error (.dbNotFound name))
   else match lookup s.bound name with
     | none => (s, .ok (.removed false))
-    | some _ => ({ s with bound := eraseKey s.bound name }, .ok (.removed true))
+    | some _ =>
+      if s.primaryRO then (s, .error .internal)
+      else ({ s with bound := eraseKey s.bound name }, .ok (.removed true))
 
 /-- `AppState::info` / `scoped_info`. -/
 def scopedInfo (cfg : Cfg) (s : State) (p : Principal) (dbName : String) : RootResult :=
@@ -349,17 +370,25 @@ def dispatchIn (t : List DispatchRow) (variant : String) : Option DispatchRow :=
   | r :: rest => if r.variant == variant then some r else dispatchIn rest variant
 
 /-- `dispatch_db`: `get_db(db_name)` first, then the handler; only a handler whose generated row
-says it receives the principal gets it. `state.scoped_info` is the one handler modelled. -/
+says it receives the principal gets it. Two handlers are modelled: `state.scoped_info`, and
+`db::set_read_only` *on the primary database* (it decides whether the registry and the key map can
+still be persisted); every other handler is "reached for database `name`". -/
 def dispatchDb (cfg : Cfg) (s : State) (name : String) (p : Principal) (variant : String)
-    (effect : Effect) : Reply :=
-  if !s.opened.contains name then .err (.dbNotFound name) else
+    (effect : Effect) (params : RootParams) : State × Reply :=
+  if !s.opened.contains name then (s, .err (.dbNotFound name)) else
   match dispatchIn Gen.ServerMethods.dbDispatch variant with
-  | none => .err (.unknownHandler variant)
+  | none => (s, .err (.unknownHandler variant))
   | some row =>
     if row.handler == "state.scoped_info" then
-      .root (scopedInfo cfg s (if row.usesPrincipal then p else .admin) name)
+      (s, .root (scopedInfo cfg s (if row.usesPrincipal then p else .admin) name))
     else
-      .handler name variant row.handler effect (if row.usesPrincipal then some p else none)
+      let s' :=
+        if row.handler == "db::set_read_only" && name == cfg.primary then
+          match params.readOnly with
+          | some b => { s with primaryRO := b }
+          | none => s
+        else s
+      (s', .handler name variant row.handler effect (if row.usesPrincipal then some p else none))
 
 /-- `require_auth` followed by `execute_rpc` for one scope. -/
 def rpc (cfg : Cfg) (s : State) (scope : Scope) (r : Request) : State × Response :=
@@ -394,7 +423,8 @@ def rpc (cfg : Cfg) (s : State) (scope : Scope) (r : Request) : State × Respons
             match parseIn Gen.ServerMethods.dbParse method with
             | none => (s, ⟨enc, .err (.methodNotFound method), some principal⟩)
             | some (variant, effect) =>
-              (s, ⟨enc, dispatchDb cfg s name principal variant effect, some principal⟩)
+              let (s', reply) := dispatchDb cfg s name principal variant effect params
+              (s', ⟨enc, reply, some principal⟩)
 
 /-- `build_router`: `GET /` is the open health endpoint, `POST /` and `POST /{db_name}` are the RPC
 endpoints behind `require_auth`, everything else is answered by the router itself. -/
@@ -410,7 +440,8 @@ def handle (cfg : Cfg) (s : State) (r : Request) : State × Response :=
 /-- A clean stop followed by `AppState::connect` over the same store with the same options:
 the primary and every registered database that still exists are reopened, bindings are reloaded. -/
 def restart (cfg : Cfg) (s : State) : State :=
-  { s with opened := cfg.primary :: (s.registry.filter (fun n => !(n == cfg.primary) && s.stored.contains n)) }
+  { s with opened := cfg.primary :: (s.registry.filter (fun n => !(n == cfg.primary) && s.stored.contains n)),
+           primaryRO := false }
 
 /-- What can happen to a running service: a request (from anybody, about anything), or a clean
 restart. -/
